@@ -7,6 +7,8 @@ import (
 	"go/types"
 	"os"
 	"path/filepath"
+	"runtime/debug"
+	"runtime/pprof"
 	"strconv"
 	"strings"
 
@@ -81,6 +83,7 @@ func main() {
 	maxSteps := flag.Int64("max-steps", 5_000_000, "instruction budget per path")
 	timeout := flag.Int("timeout-ms", 10000, "per query timeout")
 	solver := flag.String("solver", "z3 -in", "solver command")
+	fallback := flag.String("fallback", "z3-new -in -T:120", "one-shot solver used when the main solver answers unknown (empty = none)")
 	sched := flag.Bool("sched", false, "explore schedules")
 	policy := flag.String("policy", "first", "deterministic scheduling policy: first|last|rr")
 	preempt := flag.Int("preempt", 2, "preemption bound")
@@ -90,11 +93,18 @@ func main() {
 	prefix := flag.String("prefix", "", "run a single path with this decision prefix (comma separated)")
 	sampleEvery := flag.Int("sample-every", 0, "keep the replay vector of every n-th path")
 	trace := flag.Bool("trace", false, "trace")
+	cpuprof := flag.String("cpuprofile", "", "write cpu profile")
 	flag.Parse()
+	if *cpuprof != "" {
+		f, _ := os.Create(*cpuprof)
+		pprof.StartCPUProfile(f)
+		defer pprof.StopCPUProfile()
+	}
 
+	debug.SetGCPercent(400)
 	eng := loadEngine(*repo, strings.Split(*pkgs, ","), overlays)
 	cfg := &Config{Harness: *harness, Bounds: map[string]int64{}, MaxSteps: *maxSteps, MaxDepth: 400, MaxGoroutines: 64,
-		MaxPaths: *maxPaths, MaxSeconds: *maxSec, Workers: *workers, SolverArgv: strings.Fields(*solver), TimeoutMs: *timeout,
+		MaxPaths: *maxPaths, MaxSeconds: *maxSec, Workers: *workers, SolverArgv: strings.Fields(*solver), FallbackArgv: strings.Fields(*fallback), TimeoutMs: *timeout,
 		SchedExplore: *sched, SchedPolicy: *policy, MaxPreempt: *preempt, Race: *race, ConcBound: 512, trackFns: true, Trace: *trace,
 		OpenClasses: map[string]bool{}, SampleEvery: *sampleEvery}
 	for _, kv := range strings.Split(*bounds, ",") {
